@@ -556,6 +556,13 @@ func modeBuild(seed uint64, n int, out *sx.Out) {
 			cls = "syscall-rule/rejected"
 		}
 		out.Case(fmt.Sprintf("BRule %s %s %s", s.coq(), optBytes(b, err), rt), desc, cls, err == nil && len(s.items) > 0)
+		if toks, serr := shellquote.Split(line); serr == nil && len(line) < 2000 && i%2 == 0 {
+			tc := make([]string, len(toks))
+			for j, t := range toks {
+				tc[j] = cs(t)
+			}
+			out.Case(fmt.Sprintf("BLine [%s] %s", strings.Join(tc, "; "), optBytes(b, err)), desc, "line/"+cls, err == nil)
+		}
 	}
 	// value spellings: one filter per rule, the value word read back from the bytes Build returned
 	oddTexts := []string{"", "0x", "0X1G", "1_0", "_1", "1_", "0_7", "+5", "-0", "-0x10", "0b102", "0o17", "017", "089", "4294967295", "4294967296", "99999999999999999999",
